@@ -95,6 +95,20 @@ def run(ctx):
                 ctx.finding(rs, "api|%s" % name, "after [%s]: %s" % (name, problems[0]), "pysmt/solvers/solver.py")
         ctx.floor(rs, 1500)
 
+    if ctx.want("R4"):
+        rs = ctx.rule("R4", "a concrete tracking solver whose back-end needs no native library (Portfolio): the formula each solve hands on is the conjunction of the live assertions")
+        from . import solver_deep as sd
+        names = {"A1": "assert a|b", "A2": "assert !a", "P": "push", "O": "pop", "R": "reset_assertions", "S": "solve", "Q": "is_sat(c|a)"}
+        for seq, kind, detail in sd.portfolio_stack_results(repo, ctx.tier):
+            tag = " ; ".join(names[x] for x in seq)
+            if kind == "ok":
+                rs.ok({"calls": tag, "result": "every member process receives the conjunction of the live assertions"})
+            elif kind == "unsupported":
+                rs.unrec("%s: %s" % (tag, detail[:160]))
+            else:
+                ctx.finding(rs, "portfolio-stack|%s" % ",".join(seq), "%s: %s" % (tag, detail), "pysmt/solvers/portfolio.py")
+        ctx.floor(rs, 8)
+
     if ctx.want("R3"):
         rs = ctx.rule("R3", "deferred-pop discipline: stack methods of concrete solvers are decorated")
         concrete = []
